@@ -163,7 +163,8 @@ func waitQuiesce(e *exec, nworkers int) quiet {
 	var snapIters uint64
 	var snapRuns int
 	for i := 0; ; i++ {
-		loops, workers := schedStates()
+		itPre := scheduler.VerifLoopIters.Load() // before the snapshot
+		loops, workers := schedStates()          // stop-the-world snapshot of goroutine states
 		ok := len(loops) == 1 && len(workers) == nworkers
 		if ok {
 			for _, w := range workers {
@@ -176,11 +177,16 @@ func waitQuiesce(e *exec, nworkers int) quiet {
 			return qIdle
 		}
 		if ok {
-			it, rn := scheduler.VerifLoopIters.Load(), e.count()
-			if !haveSnap || rn != snapRuns {
-				haveSnap, snapIters, snapRuns = true, it, rn
-			} else if it >= snapIters+4 {
+			// Spinning: every worker was parked at an earlier snapshot A and is parked at this
+			// snapshot B, no Execute was entered in between, and at least 4 complete passes of the
+			// loop ran strictly between A and B (counter read after A vs. before B).  A pass that
+			// could dispatch (parked worker, due item) would have unparked the worker or started a run.
+			rn := e.count()
+			if haveSnap && rn == snapRuns && itPre >= snapIters+5 {
 				return qSpinning
+			}
+			if !haveSnap || rn != snapRuns {
+				haveSnap, snapIters, snapRuns = true, scheduler.VerifLoopIters.Load(), rn
 			}
 		} else {
 			haveSnap = false
@@ -504,7 +510,7 @@ func gen(r *h.Rand, tier string, emit func([]string)) {
 		n = 5000
 	}
 	periods := []uint64{1, 2, 5, 10, 15, 30, 60}
-	cperiods := []uint64{1, 2, 3, 5, 10, 15, 20, 30}
+	cperiods := []uint64{1, 2, 3, 4, 5, 6, 7, 10, 12, 15, 20} // not 30: influxdata/cron makes "*/30" match second 59 too
 	for i := 0; i < n; i++ {
 		nw := 1 + r.Intn(4)
 		ops := []string{fmt.Sprintf("new %d", nw)}
